@@ -608,6 +608,53 @@ func runC10(c *runCfg) error {
 			id++
 		}
 	}
+	// bodies that are really sent in full, from just above the limit to beyond a gigabyte (served without being
+	// materialised): skipped in full, answered with one ErrorResponse + ReadyForQuery, and the session goes on — the
+	// transcript of message types behind the first ReadyForQuery must be E Z | Z | T D C Z
+	{
+		sizes := []int64{5000, 1 << 20, 1<<24 + 1, 1<<30 - 1, 1 << 30, 1<<30 + 1}
+		if c.tier == "thorough" {
+			sizes = append(sizes, 1<<31-5, 1<<31, 1<<31+9, 1<<32-5)
+		}
+		for si, n := range sizes {
+			for _, L := range []int{1024, 0} {
+				if L == 0 && n <= 1<<24 {
+					continue
+				}
+				cfg := simpleCfg(L)
+				reg := &registry{recs: map[string]*recorder{}}
+				cs := flatCase(0, "streamed", cfg, nil, nil)
+				conn, rec := newSession(cs, reg)
+				srv, err := buildServer(&cs.cfg, reg)
+				if err != nil {
+					panic(err)
+				}
+				o := &obsT{}
+				serveAsync(srv, conn, o)
+				conn.push(stdStartup)
+				conn.waitIdle(idleTimeout)
+				mark := conn.outLen()
+				conn.push(msgLen('Q', uint32(n+4), nil))
+				conn.pushZeros(n)
+				conn.push(cat(mSync(), mQuery([]byte("select 1")), mTerminate()))
+				conn.setEOF()
+				hang := !conn.waitFinished(6 * idleTimeout)
+				collect(conn, rec, o)
+				var got []byte
+				for b := o.out[min(mark, len(o.out)):]; len(b) >= 5; {
+					l := int(uint32(b[1])<<24 | uint32(b[2])<<16 | uint32(b[3])<<8 | uint32(b[4]))
+					if l < 4 || len(b) < 1+l {
+						got = append(got, '?')
+						break
+					}
+					got = append(got, b[0])
+					b = b[1+l:]
+				}
+				c.out.line(sx("c10huge", 960000+2*si+min(L, 1), "streamed", sx("limit", L), sx("size", n), sx("want", []byte("EZZTDCZ")), sx("got", got), sx("hang", hang), sx("panic", o.panicv != "")))
+				c.stat("class_streamed")
+			}
+		}
+	}
 	if c.tier == "thorough" {
 		// default limit (non-positive setting): 16 MiB
 		for _, L := range []int{0, -1} {
